@@ -336,8 +336,11 @@ class Check:
         return True
 
     def violation(self, what, replay):
-        os.makedirs(os.path.join(VERIF, "replays"), exist_ok=True)
-        path = os.path.join(VERIF, "replays", "%s-%s-%d-%d.json" % (self.pid, self.tier, self.seed, len(self.violations)))
+        rdir = os.path.join(VERIF, "replays")
+        if os.path.realpath(REPO) != "/repo":
+            rdir = os.path.join(VERIF, "replays", "alt")
+        os.makedirs(rdir, exist_ok=True)
+        path = os.path.join(rdir, "%s-%s-%d-%d.json" % (self.pid, self.tier, self.seed, len(self.violations)))
         doc = {"property": self.pid, "what": what, "tier": self.tier, "seed": self.seed, "replay": replay}
         with open(path, "w") as fh:
             json.dump(doc, fh, indent=1, default=str)
@@ -357,8 +360,11 @@ class Check:
         ev = {"property_id": self.pid, "tier": self.tier, "seed": self.seed, "level": self.level,
               "coverage": cov, "assumptions": self.assumptions, "wall_s": round(time.time() - self.t0, 2),
               "violations": len(self.violations)}
-        os.makedirs(os.path.join(VERIF, "evidence"), exist_ok=True)
-        with open(os.path.join(VERIF, "evidence", self.pid + ".json"), "w") as fh:
+        evdir = os.path.join(VERIF, "evidence")
+        if os.path.realpath(REPO) != "/repo":
+            evdir = os.environ.get("VERIF_EVIDENCE_DIR", os.path.join(tempfile.gettempdir(), "verif-evidence-alt"))
+        os.makedirs(evdir, exist_ok=True)
+        with open(os.path.join(evdir, self.pid + ".json"), "w") as fh:
             json.dump(ev, fh, indent=1, default=str)
 
     def cleanup(self):
